@@ -2,7 +2,7 @@
    PARTIAL: the theorems are about the specification model CM (Spec/CMBlock.v); that PyMarkdown's structure is CM's is
    decided by comparing rendered HTML on the enumerated documents of the fragment F (see evidence). *)
 From Coq Require Import List NArith Bool Arith.
-Require Import PV.Spec.CMBlock PV.Proofs.CMProofs PV.Proofs.CMFuel.
+Require Import PV.Spec.CMBlock PV.Proofs.CMProofs PV.Proofs.CMFuel PV.Proofs.CMInlineProofs.
 Import ListNotations.
 
 (* whatever the text: nothing that could open or close a tag or an attribute survives the renderer's escaping *)
@@ -21,6 +21,12 @@ Theorem cm_fuel_adequate : forall extra full ln s um cl cp clist ac rest,
   starts_loop full (S (length rest) + extra) ln s um cl cp clist ac rest = starts_loop full (S (length rest)) ln s um cl cp clist ac rest.
 Proof. exact starts_loop_fuel_adequate. Qed.
 Print Assumptions cm_fuel_adequate.
+
+(* the emphasis / character-reference layer is a conservative extension of the renderer validated before it: on text
+   without *, _ and & the token pipeline renders exactly what the plain renderer (code spans, breaks, text) renders *)
+Theorem cm_emphasis_layer_conservative : forall s, forallb plain_char s = true -> inline_html s = inl (S (length s)) s 0.
+Proof. exact emphasis_layer_conservative. Qed.
+Print Assumptions cm_emphasis_layer_conservative.
 
 (* the model is a total function: the CommonMark examples it must reproduce, as regression facts *)
 Example cm_spec_examples :
